@@ -169,6 +169,16 @@ def run(ref, psi0=None, *, precision, max_bond, perm=None):
         return np.asarray(v).reshape((d,) * n).transpose(perm).reshape(-1)
 
     mps = MPSModel.product(n, d) if psi0 is None else MPSModel.from_dense(permute_vec(psi0), n, d)
+    if psi0 is not None:
+        # the backend truncates a user-supplied initial state to (precision, max_bond_dim) and normalises it
+        mps.canonicalise(n - 1)
+        for i in range(n - 1, 0, -1):
+            l, dd, rr = mps.f[i].shape
+            u, sv, vh = np.linalg.svd(mps.f[i].reshape(l, dd * rr), full_matrices=False)
+            k = _truncate(sv, precision, max_bond)
+            mps.f[i] = vh[:k].reshape(k, dd, rr)
+            mps.f[i - 1] = np.tensordot(mps.f[i - 1], u[:, :k] * sv[:k], axes=([2], [0]))
+        mps.f[0] = mps.f[0] / np.linalg.norm(mps.f[0])
     out = {0: unpermute_vec(mps.dense())}
     bonds = [mps.max_bond()]
     for k in range(len(ref.grid) - 1):
